@@ -236,29 +236,29 @@ package packets1
 //@   requires [C21,C23] fits: len(p.Method) <= 255 && len(p.Data) <= 65000
 //@   assigns p.Header.pktLength
 //@   let n = 2 + len(p.Method) + len(p.Data)
-//@   ensures [C21] ok: result1 == nil && fresh(result0)
-//@   ensures [C21] len: len(result0) == n + encHdr(n)
-//@   ensures [C21] hdr: hdrOK(result0, n, uint8(p.Header.pktType))
+//@   ensures [C21,C23] ok: result1 == nil && fresh(result0)
+//@   ensures [C21,C23] len: len(result0) == n + encHdr(n)
+//@   ensures [C21,C23] hdr: hdrOK(result0, n, uint8(p.Header.pktType))
 //@   ensures [C21] f0: result0[encHdr(n)] == p.Reason
 //@   ensures [C21] f1: result0[encHdr(n)+1] == uint8(len(p.Method))
 //@   ensures [C21] method: forall i int :: 0 <= i && i < len(p.Method) ==> result0[encHdr(n)+2+i] == p.Method[i]
 //@   ensures [C21] tail: forall i int :: 0 <= i && i < len(p.Data) ==> result0[encHdr(n)+2+len(p.Method)+i] == p.Data[i]
 //@ func (*Disconnect).Pack
-//@   nopanic [C21]
+//@   nopanic [C21,C23]
 //@   assigns p.Header.pktLength
 //@   let n = ite(p.Duration == 0, 0, 2)
-//@   ensures [C21] ok: result1 == nil && fresh(result0)
-//@   ensures [C21] len: len(result0) == n + encHdr(n)
-//@   ensures [C21] hdr: hdrOK(result0, n, uint8(p.Header.pktType))
+//@   ensures [C21,C23] ok: result1 == nil && fresh(result0)
+//@   ensures [C21,C23] len: len(result0) == n + encHdr(n)
+//@   ensures [C21,C23] hdr: hdrOK(result0, n, uint8(p.Header.pktType))
 //@   ensures [C21] f0: p.Duration != 0 ==> be16(result0, 2) == p.Duration
 //@ func (*WillTopic).Pack
 //@   nopanic [C21]
 //@   requires [C21,C23] fits: len(p.WillTopic) <= 65530
 //@   assigns p.Header.pktLength
 //@   let n = ite(len(p.WillTopic) == 0, 0, 1 + len(p.WillTopic))
-//@   ensures [C21] ok: result1 == nil && fresh(result0)
-//@   ensures [C21] len: len(result0) == n + encHdr(n)
-//@   ensures [C21] hdr: hdrOK(result0, n, uint8(p.Header.pktType))
+//@   ensures [C21,C23] ok: result1 == nil && fresh(result0)
+//@   ensures [C21,C23] len: len(result0) == n + encHdr(n)
+//@   ensures [C21,C23] hdr: hdrOK(result0, n, uint8(p.Header.pktType))
 //@   ensures [C21] f0: n > 0 ==> result0[encHdr(n)] == ((p.QOS << 5) & 0x60) | ite(p.Retain, uint8(0x10), uint8(0))
 //@   ensures [C21] tail: forall i int :: 0 <= i && i < len(p.WillTopic) ==> result0[encHdr(n)+1+i] == p.WillTopic[i]
 //@ func (*WillTopicUpd).Pack
@@ -266,9 +266,9 @@ package packets1
 //@   requires [C21,C23] fits: len(p.WillTopic) <= 65530
 //@   assigns p.Header.pktLength
 //@   let n = ite(len(p.WillTopic) == 0, 0, 1 + len(p.WillTopic))
-//@   ensures [C21] ok: result1 == nil && fresh(result0)
-//@   ensures [C21] len: len(result0) == n + encHdr(n)
-//@   ensures [C21] hdr: hdrOK(result0, n, uint8(p.Header.pktType))
+//@   ensures [C21,C23] ok: result1 == nil && fresh(result0)
+//@   ensures [C21,C23] len: len(result0) == n + encHdr(n)
+//@   ensures [C21,C23] hdr: hdrOK(result0, n, uint8(p.Header.pktType))
 //@   ensures [C21] f0: n > 0 ==> result0[encHdr(n)] == ((p.QOS << 5) & 0x60) | ite(p.Retain, uint8(0x10), uint8(0))
 //@   ensures [C21] tail: forall i int :: 0 <= i && i < len(p.WillTopic) ==> result0[encHdr(n)+1+i] == p.WillTopic[i]
 //@ func (*Subscribe).Pack
@@ -276,9 +276,9 @@ package packets1
 //@   requires [C21,C23] fits: len(p.TopicName) <= 65528
 //@   assigns p.Header.pktLength
 //@   let n = 3 + ite(p.TopicIDType == 0, len(p.TopicName), ite(p.TopicIDType == 1 || p.TopicIDType == 2, 2, 0))
-//@   ensures [C21] ok: result1 == nil && fresh(result0)
-//@   ensures [C21] len: len(result0) == n + encHdr(n)
-//@   ensures [C21] hdr: hdrOK(result0, n, uint8(p.Header.pktType))
+//@   ensures [C21,C23] ok: result1 == nil && fresh(result0)
+//@   ensures [C21,C23] len: len(result0) == n + encHdr(n)
+//@   ensures [C21,C23] hdr: hdrOK(result0, n, uint8(p.Header.pktType))
 //@   ensures [C21] f0: result0[encHdr(n)] == ite(p.dup, uint8(0x80), uint8(0)) | ((p.QOS << 5) & 0x60) | (p.TopicIDType & 0x03)
 //@   ensures [C21] f1: be16(result0, encHdr(n)+1) == p.messageID
 //@   ensures [C21] f2: (p.TopicIDType == 1 || p.TopicIDType == 2) ==> be16(result0, encHdr(n)+3) == p.TopicID
@@ -288,9 +288,9 @@ package packets1
 //@   requires [C21,C23] fits: len(p.TopicName) <= 65528
 //@   assigns p.Header.pktLength
 //@   let n = 3 + ite(p.TopicIDType == 0, len(p.TopicName), ite(p.TopicIDType == 1 || p.TopicIDType == 2, 2, 0))
-//@   ensures [C21] ok: result1 == nil && fresh(result0)
-//@   ensures [C21] len: len(result0) == n + encHdr(n)
-//@   ensures [C21] hdr: hdrOK(result0, n, uint8(p.Header.pktType))
+//@   ensures [C21,C23] ok: result1 == nil && fresh(result0)
+//@   ensures [C21,C23] len: len(result0) == n + encHdr(n)
+//@   ensures [C21,C23] hdr: hdrOK(result0, n, uint8(p.Header.pktType))
 //@   ensures [C21] f0: result0[encHdr(n)] == (p.TopicIDType & 0x03)
 //@   ensures [C21] f1: be16(result0, encHdr(n)+1) == p.messageID
 //@   ensures [C21] f2: (p.TopicIDType == 1 || p.TopicIDType == 2) ==> be16(result0, encHdr(n)+3) == p.TopicID
@@ -300,27 +300,27 @@ package packets1
 //@   nopanic [C21]
 //@   requires [C21,C23] hdr_set: p.Header.pktLength == 5
 //@   let n = 3
-//@   ensures [C21] ok: result1 == nil && fresh(result0)
-//@   ensures [C21] len: len(result0) == n + encHdr(n)
-//@   ensures [C21] hdr: hdrOK(result0, n, uint8(p.Header.pktType))
+//@   ensures [C21,C23] ok: result1 == nil && fresh(result0)
+//@   ensures [C21,C23] len: len(result0) == n + encHdr(n)
+//@   ensures [C21,C23] hdr: hdrOK(result0, n, uint8(p.Header.pktType))
 //@   ensures [C21] f0: result0[encHdr(n)+0] == p.GatewayID
 //@   ensures [C21] f1: be16(result0, encHdr(n)+1) == p.Duration
 //@ func (*SearchGw).Pack
 //@   nopanic [C21]
 //@   requires [C21,C23] hdr_set: p.Header.pktLength == 3
 //@   let n = 1
-//@   ensures [C21] ok: result1 == nil && fresh(result0)
-//@   ensures [C21] len: len(result0) == n + encHdr(n)
-//@   ensures [C21] hdr: hdrOK(result0, n, uint8(p.Header.pktType))
+//@   ensures [C21,C23] ok: result1 == nil && fresh(result0)
+//@   ensures [C21,C23] len: len(result0) == n + encHdr(n)
+//@   ensures [C21,C23] hdr: hdrOK(result0, n, uint8(p.Header.pktType))
 //@   ensures [C21] f0: result0[encHdr(n)+0] == p.Radius
 //@ func (*GwInfo).Pack
 //@   nopanic [C21]
 //@   requires [C21,C23] fits: len(p.GatewayAddress) <= 65530
 //@   assigns p.Header.pktLength
 //@   let n = 1 + len(p.GatewayAddress)
-//@   ensures [C21] ok: result1 == nil && fresh(result0)
-//@   ensures [C21] len: len(result0) == n + encHdr(n)
-//@   ensures [C21] hdr: hdrOK(result0, n, uint8(p.Header.pktType))
+//@   ensures [C21,C23] ok: result1 == nil && fresh(result0)
+//@   ensures [C21,C23] len: len(result0) == n + encHdr(n)
+//@   ensures [C21,C23] hdr: hdrOK(result0, n, uint8(p.Header.pktType))
 //@   ensures [C21] f0: result0[encHdr(n)+0] == p.GatewayID
 //@   ensures [C21] tail: forall i int :: 0 <= i && i < len(p.GatewayAddress) ==> result0[encHdr(n)+1+i] == p.GatewayAddress[i]
 //@ func (*Connect).Pack
@@ -328,9 +328,9 @@ package packets1
 //@   requires [C21,C23] fits: len(p.ClientID) <= 65527
 //@   assigns p.Header.pktLength
 //@   let n = 4 + len(p.ClientID)
-//@   ensures [C21] ok: result1 == nil && fresh(result0)
-//@   ensures [C21] len: len(result0) == n + encHdr(n)
-//@   ensures [C21] hdr: hdrOK(result0, n, uint8(p.Header.pktType))
+//@   ensures [C21,C23] ok: result1 == nil && fresh(result0)
+//@   ensures [C21,C23] len: len(result0) == n + encHdr(n)
+//@   ensures [C21,C23] hdr: hdrOK(result0, n, uint8(p.Header.pktType))
 //@   ensures [C21] f0: result0[encHdr(n)+0] == ite(p.Will, uint8(0x08), uint8(0)) | ite(p.CleanSession, uint8(0x04), uint8(0))
 //@   ensures [C21] f1: result0[encHdr(n)+1] == p.ProtocolID
 //@   ensures [C21] f2: be16(result0, encHdr(n)+2) == p.Duration
@@ -339,41 +339,41 @@ package packets1
 //@   nopanic [C21]
 //@   requires [C21,C23] hdr_set: p.Header.pktLength == 3
 //@   let n = 1
-//@   ensures [C21] ok: result1 == nil && fresh(result0)
-//@   ensures [C21] len: len(result0) == n + encHdr(n)
-//@   ensures [C21] hdr: hdrOK(result0, n, uint8(p.Header.pktType))
+//@   ensures [C21,C23] ok: result1 == nil && fresh(result0)
+//@   ensures [C21,C23] len: len(result0) == n + encHdr(n)
+//@   ensures [C21,C23] hdr: hdrOK(result0, n, uint8(p.Header.pktType))
 //@   ensures [C21] f0: result0[encHdr(n)+0] == uint8(p.ReturnCode)
 //@ func (*WillTopicReq).Pack
 //@   nopanic [C21]
 //@   requires [C21,C23] hdr_set: p.Header.pktLength == 2
 //@   let n = 0
-//@   ensures [C21] ok: result1 == nil && fresh(result0)
-//@   ensures [C21] len: len(result0) == n + encHdr(n)
-//@   ensures [C21] hdr: hdrOK(result0, n, uint8(p.Header.pktType))
+//@   ensures [C21,C23] ok: result1 == nil && fresh(result0)
+//@   ensures [C21,C23] len: len(result0) == n + encHdr(n)
+//@   ensures [C21,C23] hdr: hdrOK(result0, n, uint8(p.Header.pktType))
 //@ func (*WillMsgReq).Pack
 //@   nopanic [C21]
 //@   requires [C21,C23] hdr_set: p.Header.pktLength == 2
 //@   let n = 0
-//@   ensures [C21] ok: result1 == nil && fresh(result0)
-//@   ensures [C21] len: len(result0) == n + encHdr(n)
-//@   ensures [C21] hdr: hdrOK(result0, n, uint8(p.Header.pktType))
+//@   ensures [C21,C23] ok: result1 == nil && fresh(result0)
+//@   ensures [C21,C23] len: len(result0) == n + encHdr(n)
+//@   ensures [C21,C23] hdr: hdrOK(result0, n, uint8(p.Header.pktType))
 //@ func (*WillMsg).Pack
 //@   nopanic [C21]
 //@   requires [C21,C23] fits: len(p.WillMsg) <= 65531
 //@   assigns p.Header.pktLength
 //@   let n = 0 + len(p.WillMsg)
-//@   ensures [C21] ok: result1 == nil && fresh(result0)
-//@   ensures [C21] len: len(result0) == n + encHdr(n)
-//@   ensures [C21] hdr: hdrOK(result0, n, uint8(p.Header.pktType))
+//@   ensures [C21,C23] ok: result1 == nil && fresh(result0)
+//@   ensures [C21,C23] len: len(result0) == n + encHdr(n)
+//@   ensures [C21,C23] hdr: hdrOK(result0, n, uint8(p.Header.pktType))
 //@   ensures [C21] tail: forall i int :: 0 <= i && i < len(p.WillMsg) ==> result0[encHdr(n)+0+i] == p.WillMsg[i]
 //@ func (*Register).Pack
 //@   nopanic [C21]
 //@   requires [C21,C23] fits: len(p.TopicName) <= 65527
 //@   assigns p.Header.pktLength
 //@   let n = 4 + len(p.TopicName)
-//@   ensures [C21] ok: result1 == nil && fresh(result0)
-//@   ensures [C21] len: len(result0) == n + encHdr(n)
-//@   ensures [C21] hdr: hdrOK(result0, n, uint8(p.Header.pktType))
+//@   ensures [C21,C23] ok: result1 == nil && fresh(result0)
+//@   ensures [C21,C23] len: len(result0) == n + encHdr(n)
+//@   ensures [C21,C23] hdr: hdrOK(result0, n, uint8(p.Header.pktType))
 //@   ensures [C21] f0: be16(result0, encHdr(n)+0) == p.TopicID
 //@   ensures [C21] f1: be16(result0, encHdr(n)+2) == p.messageID
 //@   ensures [C21] tail: forall i int :: 0 <= i && i < len(p.TopicName) ==> result0[encHdr(n)+4+i] == p.TopicName[i]
@@ -381,9 +381,9 @@ package packets1
 //@   nopanic [C21]
 //@   requires [C21,C23] hdr_set: p.Header.pktLength == 7
 //@   let n = 5
-//@   ensures [C21] ok: result1 == nil && fresh(result0)
-//@   ensures [C21] len: len(result0) == n + encHdr(n)
-//@   ensures [C21] hdr: hdrOK(result0, n, uint8(p.Header.pktType))
+//@   ensures [C21,C23] ok: result1 == nil && fresh(result0)
+//@   ensures [C21,C23] len: len(result0) == n + encHdr(n)
+//@   ensures [C21,C23] hdr: hdrOK(result0, n, uint8(p.Header.pktType))
 //@   ensures [C21] f0: be16(result0, encHdr(n)+0) == p.TopicID
 //@   ensures [C21] f1: be16(result0, encHdr(n)+2) == p.messageID
 //@   ensures [C21] f2: result0[encHdr(n)+4] == uint8(p.ReturnCode)
@@ -392,9 +392,9 @@ package packets1
 //@   requires [C21,C23] fits: len(p.Data) <= 65526
 //@   assigns p.Header.pktLength
 //@   let n = 5 + len(p.Data)
-//@   ensures [C21] ok: result1 == nil && fresh(result0)
-//@   ensures [C21] len: len(result0) == n + encHdr(n)
-//@   ensures [C21] hdr: hdrOK(result0, n, uint8(p.Header.pktType))
+//@   ensures [C21,C23] ok: result1 == nil && fresh(result0)
+//@   ensures [C21,C23] len: len(result0) == n + encHdr(n)
+//@   ensures [C21,C23] hdr: hdrOK(result0, n, uint8(p.Header.pktType))
 //@   ensures [C21] f0: result0[encHdr(n)+0] == ite(p.dup, uint8(0x80), uint8(0)) | ((p.QOS << 5) & 0x60) | ite(p.Retain, uint8(0x10), uint8(0)) | (p.TopicIDType & 0x03)
 //@   ensures [C21] f1: be16(result0, encHdr(n)+1) == p.TopicID
 //@   ensures [C21] f2: be16(result0, encHdr(n)+3) == p.messageID
@@ -403,9 +403,9 @@ package packets1
 //@   nopanic [C21]
 //@   requires [C21,C23] hdr_set: p.Header.pktLength == 7
 //@   let n = 5
-//@   ensures [C21] ok: result1 == nil && fresh(result0)
-//@   ensures [C21] len: len(result0) == n + encHdr(n)
-//@   ensures [C21] hdr: hdrOK(result0, n, uint8(p.Header.pktType))
+//@   ensures [C21,C23] ok: result1 == nil && fresh(result0)
+//@   ensures [C21,C23] len: len(result0) == n + encHdr(n)
+//@   ensures [C21,C23] hdr: hdrOK(result0, n, uint8(p.Header.pktType))
 //@   ensures [C21] f0: be16(result0, encHdr(n)+0) == p.TopicID
 //@   ensures [C21] f1: be16(result0, encHdr(n)+2) == p.messageID
 //@   ensures [C21] f2: result0[encHdr(n)+4] == uint8(p.ReturnCode)
@@ -413,33 +413,33 @@ package packets1
 //@   nopanic [C21]
 //@   requires [C21,C23] hdr_set: p.Header.pktLength == 4
 //@   let n = 2
-//@   ensures [C21] ok: result1 == nil && fresh(result0)
-//@   ensures [C21] len: len(result0) == n + encHdr(n)
-//@   ensures [C21] hdr: hdrOK(result0, n, uint8(p.Header.pktType))
+//@   ensures [C21,C23] ok: result1 == nil && fresh(result0)
+//@   ensures [C21,C23] len: len(result0) == n + encHdr(n)
+//@   ensures [C21,C23] hdr: hdrOK(result0, n, uint8(p.Header.pktType))
 //@   ensures [C21] f0: be16(result0, encHdr(n)+0) == p.messageID
 //@ func (*Pubrec).Pack
 //@   nopanic [C21]
 //@   requires [C21,C23] hdr_set: p.Header.pktLength == 4
 //@   let n = 2
-//@   ensures [C21] ok: result1 == nil && fresh(result0)
-//@   ensures [C21] len: len(result0) == n + encHdr(n)
-//@   ensures [C21] hdr: hdrOK(result0, n, uint8(p.Header.pktType))
+//@   ensures [C21,C23] ok: result1 == nil && fresh(result0)
+//@   ensures [C21,C23] len: len(result0) == n + encHdr(n)
+//@   ensures [C21,C23] hdr: hdrOK(result0, n, uint8(p.Header.pktType))
 //@   ensures [C21] f0: be16(result0, encHdr(n)+0) == p.messageID
 //@ func (*Pubrel).Pack
 //@   nopanic [C21]
 //@   requires [C21,C23] hdr_set: p.Header.pktLength == 4
 //@   let n = 2
-//@   ensures [C21] ok: result1 == nil && fresh(result0)
-//@   ensures [C21] len: len(result0) == n + encHdr(n)
-//@   ensures [C21] hdr: hdrOK(result0, n, uint8(p.Header.pktType))
+//@   ensures [C21,C23] ok: result1 == nil && fresh(result0)
+//@   ensures [C21,C23] len: len(result0) == n + encHdr(n)
+//@   ensures [C21,C23] hdr: hdrOK(result0, n, uint8(p.Header.pktType))
 //@   ensures [C21] f0: be16(result0, encHdr(n)+0) == p.messageID
 //@ func (*Suback).Pack
 //@   nopanic [C21]
 //@   requires [C21,C23] hdr_set: p.Header.pktLength == 8
 //@   let n = 6
-//@   ensures [C21] ok: result1 == nil && fresh(result0)
-//@   ensures [C21] len: len(result0) == n + encHdr(n)
-//@   ensures [C21] hdr: hdrOK(result0, n, uint8(p.Header.pktType))
+//@   ensures [C21,C23] ok: result1 == nil && fresh(result0)
+//@   ensures [C21,C23] len: len(result0) == n + encHdr(n)
+//@   ensures [C21,C23] hdr: hdrOK(result0, n, uint8(p.Header.pktType))
 //@   ensures [C21] f0: result0[encHdr(n)+0] == (p.QOS << 5) & 0x60
 //@   ensures [C21] f1: be16(result0, encHdr(n)+1) == p.TopicID
 //@   ensures [C21] f2: be16(result0, encHdr(n)+3) == p.messageID
@@ -448,50 +448,50 @@ package packets1
 //@   nopanic [C21]
 //@   requires [C21,C23] hdr_set: p.Header.pktLength == 4
 //@   let n = 2
-//@   ensures [C21] ok: result1 == nil && fresh(result0)
-//@   ensures [C21] len: len(result0) == n + encHdr(n)
-//@   ensures [C21] hdr: hdrOK(result0, n, uint8(p.Header.pktType))
+//@   ensures [C21,C23] ok: result1 == nil && fresh(result0)
+//@   ensures [C21,C23] len: len(result0) == n + encHdr(n)
+//@   ensures [C21,C23] hdr: hdrOK(result0, n, uint8(p.Header.pktType))
 //@   ensures [C21] f0: be16(result0, encHdr(n)+0) == p.messageID
 //@ func (*Pingreq).Pack
 //@   nopanic [C21]
 //@   requires [C21,C23] fits: len(p.ClientID) <= 65531
 //@   assigns p.Header.pktLength
 //@   let n = 0 + len(p.ClientID)
-//@   ensures [C21] ok: result1 == nil && fresh(result0)
-//@   ensures [C21] len: len(result0) == n + encHdr(n)
-//@   ensures [C21] hdr: hdrOK(result0, n, uint8(p.Header.pktType))
+//@   ensures [C21,C23] ok: result1 == nil && fresh(result0)
+//@   ensures [C21,C23] len: len(result0) == n + encHdr(n)
+//@   ensures [C21,C23] hdr: hdrOK(result0, n, uint8(p.Header.pktType))
 //@   ensures [C21] tail: forall i int :: 0 <= i && i < len(p.ClientID) ==> result0[encHdr(n)+0+i] == p.ClientID[i]
 //@ func (*Pingresp).Pack
 //@   nopanic [C21]
 //@   requires [C21,C23] hdr_set: p.Header.pktLength == 2
 //@   let n = 0
-//@   ensures [C21] ok: result1 == nil && fresh(result0)
-//@   ensures [C21] len: len(result0) == n + encHdr(n)
-//@   ensures [C21] hdr: hdrOK(result0, n, uint8(p.Header.pktType))
+//@   ensures [C21,C23] ok: result1 == nil && fresh(result0)
+//@   ensures [C21,C23] len: len(result0) == n + encHdr(n)
+//@   ensures [C21,C23] hdr: hdrOK(result0, n, uint8(p.Header.pktType))
 //@ func (*WillTopicResp).Pack
 //@   nopanic [C21]
 //@   requires [C21,C23] hdr_set: p.Header.pktLength == 3
 //@   let n = 1
-//@   ensures [C21] ok: result1 == nil && fresh(result0)
-//@   ensures [C21] len: len(result0) == n + encHdr(n)
-//@   ensures [C21] hdr: hdrOK(result0, n, uint8(p.Header.pktType))
+//@   ensures [C21,C23] ok: result1 == nil && fresh(result0)
+//@   ensures [C21,C23] len: len(result0) == n + encHdr(n)
+//@   ensures [C21,C23] hdr: hdrOK(result0, n, uint8(p.Header.pktType))
 //@   ensures [C21] f0: result0[encHdr(n)+0] == uint8(p.ReturnCode)
 //@ func (*WillMsgUpd).Pack
 //@   nopanic [C21]
 //@   requires [C21,C23] fits: len(p.WillMsg) <= 65531
 //@   assigns p.Header.pktLength
 //@   let n = 0 + len(p.WillMsg)
-//@   ensures [C21] ok: result1 == nil && fresh(result0)
-//@   ensures [C21] len: len(result0) == n + encHdr(n)
-//@   ensures [C21] hdr: hdrOK(result0, n, uint8(p.Header.pktType))
+//@   ensures [C21,C23] ok: result1 == nil && fresh(result0)
+//@   ensures [C21,C23] len: len(result0) == n + encHdr(n)
+//@   ensures [C21,C23] hdr: hdrOK(result0, n, uint8(p.Header.pktType))
 //@   ensures [C21] tail: forall i int :: 0 <= i && i < len(p.WillMsg) ==> result0[encHdr(n)+0+i] == p.WillMsg[i]
 //@ func (*WillMsgResp).Pack
 //@   nopanic [C21]
 //@   requires [C21,C23] hdr_set: p.Header.pktLength == 3
 //@   let n = 1
-//@   ensures [C21] ok: result1 == nil && fresh(result0)
-//@   ensures [C21] len: len(result0) == n + encHdr(n)
-//@   ensures [C21] hdr: hdrOK(result0, n, uint8(p.Header.pktType))
+//@   ensures [C21,C23] ok: result1 == nil && fresh(result0)
+//@   ensures [C21,C23] len: len(result0) == n + encHdr(n)
+//@   ensures [C21,C23] hdr: hdrOK(result0, n, uint8(p.Header.pktType))
 //@   ensures [C21] f0: result0[encHdr(n)+0] == uint8(p.ReturnCode)
 // ---- C21: round-trip lemmas ----
 //@ func lemmaRoundtripAdvertise
@@ -857,7 +857,10 @@ package packets1
 // Pack recomputes the header length of these types (assigns lists of the senders):
 // pkt.(*GwInfo).Header.pktLength, pkt.(*Connect).Header.pktLength, pkt.(*WillMsg).Header.pktLength, pkt.(*Register).Header.pktLength, pkt.(*Publish).Header.pktLength, pkt.(*Pingreq).Header.pktLength, pkt.(*WillMsgUpd).Header.pktLength, pkt.(*Auth).Header.pktLength, pkt.(*WillTopic).Header.pktLength, pkt.(*WillTopicUpd).Header.pktLength, pkt.(*Subscribe).Header.pktLength, pkt.(*Unsubscribe).Header.pktLength, pkt.(*Disconnect).Header.pktLength
 
-// ---- AUTH PLAIN data (bytes.Split is a trusted, uninterpreted library call) ----
+// ---- AUTH PLAIN data (bytes.Split is a trusted library call: A-SPLIT, it returns sepCount(data)+1 parts) ----
+// Well-formed PLAIN data (RFC 4616: authzid NUL authcid NUL passwd) holds exactly two NUL separators.
 //@ func (*Auth).DecodePlain
 //@   nopanic [C25]
 //@   ensures [C25] err_or_values: true
+//@   ensures [C08] decodes_only_well_formed_data: result2 == nil ==> sepCount(p.Data) == 2
+//@   ensures [C08] well_formed_data_decodes: sepCount(p.Data) == 2 ==> result2 == nil
